@@ -601,7 +601,8 @@ func targetedCases(flood bool) []*pvCase {
 			withDelay(append(full(), pvAction{Op: "close"}), 3, 10)),
 		mk("forced-no-handler", "opns", Behaviour{Outcome: "hang"}, okEnv,
 			withDelay(append(full(), pvAction{Op: "forceclose"}), 3, 10)),
-		// stop request while a step WITHOUT cancel signal handler runs: cancelStep dereferences the nil handler
+		// stop request while a step WITHOUT cancel signal handler runs (regression detector for 691f1ef: cancelStep used to
+		// dereference the nil handler)
 		mk("stop-without-cancel-handler", "opns", Behaviour{Outcome: "hang"}, okEnv,
 			withDelay(append(full(), pvAction{Op: "cancelled", Arg: true}), 3, 10)),
 		mk("stop-before-start-with-early-input", "op", Behaviour{Outcome: "success", DeployDelayMs: 20}, okEnv,
@@ -645,11 +646,12 @@ func targetedCases(flood bool) []*pvCase {
 		fe("items-failed", Behaviour{Outcome: "crash"}, 2, seqA("enabling", nil, "execute", "ok")),
 		fe("disabled", Behaviour{Outcome: "success"}, 1, seqA("enabling", false, "execute", "ok")),
 		fe("closed-waiting-enable", Behaviour{Outcome: "success"}, 1, withDelay(seqA("close", nil), 0, 5)),
-		// F10e: Close right after Start, before run() has executed r.wg.Add(1)
+		// regression detector for F10e (c9cdc4d): Close right after Start, before run() has executed anything
 		fe("close-right-after-start", Behaviour{Outcome: "success"}, 1, seqA("close", nil)),
-		// F10b: closed while waiting for the execute input
+		// closed while waiting for the execute input (F10b, 2e2fefe: must report closedEarly)
 		fe("closed-waiting-execute", Behaviour{Outcome: "success"}, 1, withDelay(seqA("enabling", true, "close", nil), 1, 5)),
-		// F10c: Close closes executeInput while a provider that passed the closed check is still validating items
+		// regression detector for F10c (c9cdc4d): Close must not close executeInput while a provider that passed the
+		// closed check is still validating items
 		fe("send-on-closed-channel", Behaviour{Outcome: "success"}, 1, []pvAction{
 			{Op: "enabling", Arg: true}, {Op: "execute", Arg: "big", Async: true, DelayMs: 5}, {Op: "close", DelayMs: 1}}),
 		fe("send-on-closed-channel-2000-items", Behaviour{Outcome: "success"}, 2000, []pvAction{
